@@ -157,6 +157,12 @@ def check_input(input_data, y=None, preprocessor=None,
     raise ValueError("Unknown value {} for type_of_inputs. Valid values are "
                      "'classic' or 'tuples'.".format(type_of_inputs))
 
+  # the learners and the distance computations take differences of points:
+  # in an unsigned or narrow integer type these wrap around (uint8 images,
+  # int8 features), so integer and boolean data are converted to float
+  if input_data.dtype.kind in 'iub':
+    input_data = input_data.astype(np.float64)
+
   return input_data if y is None else (input_data, y)
 
 
